@@ -23,7 +23,7 @@ P = {
    "Decides exactly the token grammar and success offset of all six integer readers for every input (product construction), the range guards as intervals on success paths (both directions), absence of lossy narrowing on success paths, and the hand-derived side conditions of ReadUint64's two loops. The arithmetic exactness of the wrap-around test is not decided.",
    "The relational fact `val*10+v wrapped <=> newVal < val` is trusted under its checked precondition."),
  "C06": ("proof", "E1+E2+E3 product with emission typestate; path rules on the \\u helpers",
-   "Acceptance, offset and the emitted content (raw bytes copied unchanged exactly once, the eight simple escapes, \\u plumbing and the 12-byte skip) of both string readers and of UnescapeStringContent are decided for all inputs on the extracted transition systems; getu4's hex table and accumulation and unescapeUnicodeChar's surrogate paths by value-set evaluation and path rules.",
+   "Acceptance, offset and the emitted content (raw bytes copied unchanged exactly once, the eight simple escapes, \\u plumbing and the 12-byte skip) of both string readers and of UnescapeStringContent are decided for all inputs on the extracted transition systems; getu4's hex table and accumulation by exact byte-window evaluation; unescapeUnicodeChar by enumeration of its paths (rune encoded, bytes reported, and the result being the destination followed by exactly that rune's encoding).",
    "Trusted: documented semantics of unicode/utf16 and unicode/utf8 (stdlib summaries) for the code-point values."),
  "C07": ("proof", "E1+E3 bisimulation with marks against a marked reference",
    "For all inputs and all well-behaved handler strategies: the handler is invoked exactly on the first byte of each member, once, in order, with data[p:] and the raw key bytes between the quotes; declined values are validated by states bisimilar to the RFC recogniser; accepted values re-synchronise on their last byte; final offset and null handling as stated.",
@@ -62,7 +62,7 @@ P = {
    "No instruction outside init stores to a package-level variable or through a pointer derived from one; inputs are never written; every external callee is on a list of stateless stdlib functions; no goroutines, unsafe, reflect.",
    "Listed stdlib functions have no observable package-level mutable state."),
  "C19": ("other", "compiler escape diagnostics + SSA allocation-site classification + model walk of the Decode-null path",
-   "Every potential heap-allocation site reachable from the listed entry points is error-path-only or capacity-guarded; the slow-path decimal stays on the stack; on `ws* null` the typed reader that fails before the null fallback succeeds returns a sentinel (or a non-allocating constructor), so Decode*(null) allocates nothing either.",
+   "Every potential heap-allocation site reachable from the listed entry points is error-path-only or capacity-guarded; the slow-path decimal stays on the stack; on `ws* null` the typed reader that fails before the null fallback succeeds returns a sentinel (or a non-allocating constructor), so Decode*(null) allocates nothing either; growth requests stay within the promised spare capacity (len(dst)+len(input)) and are strictly guarded; every exit of a stack-taking machine, failing ones included, hands the stack back, and every wrapper stores it.",
    "Compiler escape analysis output (-gcflags=-m) of the installed toolchains."),
  "C20": ("other", "SSA hint-refresh post-dominance, remainder-size taint, stack-growth bound",
    "Necessary conditions of linear memory: every size hint is refreshed between uses on every path (or only ever holds constants), no allocation is sized by the unconsumed remainder of the input, stack growth is bounded by twice the depth reached plus a constant. The asymptotic bound as such is not decided.",
